@@ -155,6 +155,32 @@ CHECKS["C17"] = dict(
    technique="Coq proof (invariant over call sequences, Flocq binary32 sweep for the size) + extracted-model/impl correspondence on call sequences + panic sampling",
    ref="§5 C17, §11")
 
+CHECKS["C01"] = dict(
+   text="Discrete half proved, DSP half sampled (partial). Machine-checked scenario theorem over the assembler/combiner model with ALL "
+        "burst contents and ALL times symbolic: six bursts that combine as a complete transmission does (stated as facts about combine "
+        "on the delivered bursts, so junk after the data and bit errors are covered), header hold released by idle polling before the "
+        "trailer, everything inside the history window => the whole history reports EXACTLY [StartOfMessage h at the first poll 682 "
+        "symbols after the third burst; EndOfMessage in the call delivering the second trailer burst]; instantiated for every canonical "
+        "header received intact three times and any bursts beginning NN. With C03/C04/C07 this is the logic from bytes to messages. "
+        "That the float chain delivers such bursts for audio at every rate 8000..96000 with the stated impairments is validated by "
+        "sampling the real receiver (never presented as proof): per run the burst-level premise, the tick-trace replay through the "
+        "extracted model, and the exact-decode oracle.",
+   note=RX_NOTE + " The sampled envelope is printed in the evidence (rates, amplitudes, DC up to 5x the amplitude, baud error +/-1 %, "
+        "SNR >= 20 dB, preamble-like header characters).",
+   technique="Coq scenario proof (symbolic six-burst history) + tick-trace replay correspondence + sampled validation of the DSP premise",
+   ref="§5 C01, §11")
+CHECKS["C14"] = dict(
+   text="Discrete half proved, DSP half sampled (partial). Machine-checked: flush() (model: iter_messages over the items the zero padding "
+        "produces, take one, drop the iterator) returns the FIRST Ok message among queued events followed by the padding's events, and "
+        "what remains queued / to come is exactly what followed it, so repeated calls return every pending message in order and then None; "
+        "on a quiet channel (no byte clock, framer idle, power below the open threshold) EVERY symbol polls the assembler, so a held "
+        "message is delivered once the symbol counter reaches its deadline, which is never more than 682 symbols after the last burst. "
+        "Sampled: recordings cut 0..1.5 s after the last header/trailer burst (2 or 3 bursts, all rates), flushed up to four times; the "
+        "run AND every flush() call are replayed through the extracted model; samedec (with and without a child) prints the messages.",
+   note=RX_NOTE,
+   technique="Coq refinement + liveness-by-counting proofs on the receiver model + flush-call trace replay correspondence + samedec black-box runs",
+   ref="§5 C14, §11")
+
 NOT_APPLICABLE = {}
 
 def main():
